@@ -338,6 +338,7 @@ def fork_then_disconnect_first_file(f: int, s1: int, s2: int, d: int) -> bool:
     pre: 0 <= f <= NMAX
     pre: 0 <= s1 <= 4 and 0 <= s2 <= 4
     pre: 1 <= d <= 4
+    pre: FULL or s2 == 2
     post: _
     """
     STRICT_DISCONNECT[0] = True
@@ -405,6 +406,7 @@ def fork_then_disconnect_first_mem(f: int, s1: int, s2: int, d: int) -> bool:
     pre: 0 <= f <= NMAX
     pre: 0 <= s1 <= 4 and 0 <= s2 <= 4
     pre: 1 <= d <= 4
+    pre: FULL or s2 == 2
     post: _
     """
     STRICT_DISCONNECT[0] = True
@@ -472,6 +474,7 @@ def fork_then_disconnect_first_pg(f: int, s1: int, s2: int, d: int) -> bool:
     pre: 0 <= f <= NMAX
     pre: 0 <= s1 <= 4 and 0 <= s2 <= 4
     pre: 1 <= d <= 4
+    pre: FULL or s2 == 2
     post: _
     """
     STRICT_DISCONNECT[0] = True
@@ -539,6 +542,7 @@ def fork_then_disconnect_first_my(f: int, s1: int, s2: int, d: int) -> bool:
     pre: 0 <= f <= NMAX
     pre: 0 <= s1 <= 4 and 0 <= s2 <= 4
     pre: 1 <= d <= 4
+    pre: FULL or s2 == 2
     post: _
     """
     STRICT_DISCONNECT[0] = True
@@ -606,6 +610,7 @@ def fork_then_disconnect_first_ora(f: int, s1: int, s2: int, d: int) -> bool:
     pre: 0 <= f <= NMAX
     pre: 0 <= s1 <= 4 and 0 <= s2 <= 4
     pre: 1 <= d <= 4
+    pre: FULL or s2 == 2
     post: _
     """
     STRICT_DISCONNECT[0] = True
